@@ -284,7 +284,12 @@ func (lc *lifeClient) runLifeConn(idx int, term, place, peer string, r *RNG) *li
 					break
 				}
 				l := fmt.Sprintf(":x!u@h PRIVMSG me :%s line %d", tag, i)
-				if i == 15 {
+				switch i {
+				case 2: // tracked state that the next connection must not inherit
+					l = fmt.Sprintf(":me!u@h JOIN #left%s", tag)
+				case 3:
+					l = fmt.Sprintf(":srv 353 me = #left%s :me @bob +carl", tag)
+				case 15:
 					l = fmt.Sprintf(":me!u@h JOIN #stale%s", tag)
 				}
 				if !sendRec(l) {
